@@ -229,7 +229,7 @@ def space(tier):
         cfg = {"env_kinds": ["deliver", "early"], "deliver_outcomes": outs, "early_outcomes": outs, "spurious": True}
         if "custom-serdes" in p["name"]:
             cfg["ext_payload"] = 'PFX{"k": [1, "v"]}'
-        units.append(({"program": p, "cfg": cfg}, {"deliver": 2, "early": 1, "total": 2}, cap))
+        units.append(({"program": p, "cfg": cfg}, {"deliver": 2, "early": 1, "total": 2} if quick else {"deliver": 3, "early": 1, "total": 3}, cap))
         cfg2 = {"env_kinds": ["deliver", "crash"], "deliver_outcomes": ["ok", "fail", "timeout"] if not quick else ["ok", "fail"]}
         units.append(({"program": p, "cfg": cfg2}, {"deliver": 1, "crash": 1, "total": 2}, cap))
         # paginated checkpoint responses (the backend-issued callback id / STARTED invoke arrives on a later page)
